@@ -14,13 +14,13 @@ CLAIMED = {
 
 MODEL_NOTE = "Reference model written from the property statement; grey zones listed in DESIGN 3.6 accepted either way; Go runtime, testing/synctest, rapid trusted."
 CLAIMED.update({
-    "C02": ("model-based property testing: rapid-generated RPC histories (cancel/timeout/departure/foreign+duplicate answers) vs. a reference dealer model under a virtual clock",
+    "C02": ("model-based property testing: rapid-generated RPC histories (cancel/timeout/departure/foreign+duplicate answers, progressive call invocations in chunks, callers and callees with full queues) vs. a reference dealer model under a virtual clock; plus concurrent race tails (cancels, answers, departures issued at the timeout instant) judged by interleaving-independent invariants over the complete inboxes",
             "Exploration: the dealer model demands exactly one final reply whenever the statement says one is due and nothing else; judged at quiescence after every step and 24 virtual hours later, so 'never answered' is decided, not guessed. Sampling.",
             MODEL_NOTE, "DESIGN.md 4/C02"),
     "C03": ("model-based property testing: rapid-generated registration structures and calls vs. a reference dealer model (best-match resolution, policy choice sets, id freshness, payload equality)",
             "Exploration: every INVOCATION is checked for callee membership in the policy's allowed set, registration id, fresh request id, unchanged payload and detail flags; unexpected deliveries are violations. Sampling.",
             MODEL_NOTE, "DESIGN.md 4/C03"),
-    "C13": ("model-based property testing: every order of cancel modes, answers, timer expiry (T-1ns/T/T+1ns on the synctest fake clock) and departures around calls",
+    "C13": ("model-based property testing: every order of cancel modes, answers, timer expiry (T-1ns/T/T+1ns on the synctest fake clock) and departures around calls, sequentially against the dealer model and as concurrent batches released at the same virtual instant as the router's timer (invariant oracle)",
             "Exploration with exact virtual time: 'never before the timeout, exactly at it' is an equality check on the fake clock. Sampling of orders, not exhaustive.",
             MODEL_NOTE, "DESIGN.md 4/C13"),
     "C19": ("property-based differential test against an independent URI/id model; exhaustive enumeration of all strings <= 6 over a 9-symbol alphabet x 6 modes plus rapid-generated strings and ids",
@@ -29,7 +29,7 @@ CLAIMED.update({
 })
 
 CLAIMED.update({
-    "C05": ("model-based property testing with endings injected at arbitrary history positions; broker+dealer+meta reference models plus a structural differential (H1 table-size snapshot vs. model) after every step",
+    "C05": ("model-based property testing with endings injected at arbitrary history positions; broker+dealer+meta reference models plus a structural differential (H1 table-size snapshot vs. model) after every step; a share of the cases on a realm with configured event histories",
             "Exploration: behaviour after every kind of session end is compared with the models at each step, and the router's table sizes (H1 hook) must equal what the history justifies at every quiescent point and the start-up snapshot after everyone left. Sampling.",
             MODEL_NOTE + " H1 hook reads sizes inside the owning goroutines.", "DESIGN.md 4/C05"),
     "C18": ("model-based property testing: mixed histories with meta-topic observers and meta procedure calls between steps vs. broker+dealer+meta reference models",
@@ -38,13 +38,13 @@ CLAIMED.update({
 })
 
 CLAIMED.update({
-    "C20": ("model-based property testing: publish/subscriber-churn/query histories with every filter combination through local and serialised sessions vs. a bounded-deque history model under a virtual clock",
+    "C20": ("model-based property testing: publish/subscriber-churn/query histories with every filter combination through local and serialised sessions vs. a bounded-deque history model under a virtual clock; in-process subscribers rewrite the events they were handed",
             "Exploration: every get_events answer (entries, order, publication ids, payload, topic) is compared with the model; publications are one virtual second apart so time bounds are exact. Sampling.",
             MODEL_NOTE, "DESIGN.md 4/C20"),
 })
 
 CLAIMED.update({
-    "C04": ("property-based fuzzing of the router: rapid-generated hostile message histories over all transports and serializers plus structured rawsocket/websocket byte streams, with a liveness probe as oracle; part of the shards under the race detector",
+    "C04": ("property-based fuzzing of the router: rapid-generated hostile message histories over all transports and serializers plus structured rawsocket/websocket byte streams, in-process applications that rewrite what they are handed, with a liveness probe as oracle; part of the shards under the race detector; real-time hangs with a mutex waiter are decided by replaying the case on the real clock",
             "Exploration: every case runs in a disposable worker process inside a synctest bubble; a panic, Go fatal error or race report is a crash verdict attributed to the case and shrunk; afterwards (and 24 virtual hours later) a fresh probe session must be served with no virtual delay. Sampling; native go-fuzz campaigns extend it in the thorough tier.",
             "Oracle is robustness only (alive + other sessions served). Schedules are sampled (par batches, GOMAXPROCS varied), not enumerated. Go runtime, synctest, race detector, rapid trusted.", "DESIGN.md 4/C04"),
     "C12": ("model-based + metamorphic property testing: exact per-recipient EVENT details from the recipient's own features/subscription, identity-key necessity for INVOCATIONs, snapshot-then-mutate immutability probe on in-process recipients, transport.auth absence in session meta output",
@@ -71,7 +71,7 @@ CLAIMED.update({
 })
 
 CLAIMED.update({
-    "C09": ("model-based property testing of the handshake: generated authentication configurations x scripted adversarial handshakes (replay, wrong key, other user, malformed, silence, first-message violations, smuggled details) vs. an acceptance model with independent HMAC/Ed25519 verification, observed through a meta-API observer",
+    "C09": ("model-based property testing of the handshake: generated authentication configurations x scripted adversarial handshakes (replay, wrong key, other user, malformed, silence, first-message violations, smuggled details, tracking-cookie key stores, users without a role, pipelined messages) vs. an acceptance model with independent HMAC/Ed25519 verification, observed through a meta-API observer; one shard under the race detector",
             "Exploration: soundness (WELCOME implies the model allows it and the response verifies against this handshake's challenge) and completeness (valid credentials are welcomed) per handshake, identity shown to others equals the authenticator's, nothing of an aborted peer is routed or listed. Sampling.",
             "Cryptographic strength of HMAC-SHA256/Ed25519 assumed; in-process peers without RequireLocalAuth are trusted by documented policy.", "DESIGN.md 4/C09"),
 })
@@ -86,13 +86,13 @@ CLAIMED.update({
 })
 
 CLAIMED.update({
-    "C06": ("property-based concurrency testing: generated in-flight states followed by a concurrent batch of Router.Close / RemoveRealm with other operations under varied GOMAXPROCS, virtual time and the race detector; oracle = Close returns, process alive after all timers, clients told or closed, late attaches refused, no goroutine left",
+    "C06": ("property-based concurrency testing: generated in-flight states followed by a concurrent batch of Router.Close / RemoveRealm with other operations under varied GOMAXPROCS, virtual time and the race detector; oracle = Close returns, process alive after all timers, clients told or closed (also those ending on their own account at that moment), late attaches refused, no goroutine left; hangs with a mutex waiter decided on the real clock",
             "Exploration: each case runs in a disposable worker inside a synctest bubble (24 virtual hours after the shutdown, so late timer panics are seen), par cases 3 times, a third of the shards under -race; leaks and deadlocks are verdicts of their own. Schedules are sampled, not enumerated.",
             "Interleavings come from the Go scheduler; virtual time makes timer-vs-shutdown orders reachable. A window narrower than scheduler granularity can be missed.", "DESIGN.md 4/C06"),
 })
 
 CLAIMED.update({
-    "C07": ("model-based property testing with silent clients: generated queue sizes, stall/resume points, publication bursts, calls and kills involving silent sessions; exact reference-model expectations for every reading session at zero virtual latency, exact queue-prefix check for a silent session that reads again, bounded-hold check for the result-retry exception; deadlock/leak/hang are verdicts",
+    "C07": ("model-based property testing with silent clients: generated queue sizes, stall/resume points, publication bursts, calls and kills involving silent sessions; exact reference-model expectations for every reading session at zero virtual latency, exact queue-prefix check for a silent session that reads again, bounded-hold checks for the result-retry exception (final and progressive results, delivery at the first retry after the caller reads again, no second hold after the call was cancelled); deadlock/leak/hang are verdicts, hangs with a mutex waiter decided on the real clock",
             "Exploration under a virtual clock: 'without delay' is an equality (replies and deliveries in the step of the request); a blocking send or unbounded retry shows up as a synctest deadlock, a missing delivery or a message the router has not accepted after two retry periods. Sampling.",
             "Calls whose callee or caller is silent are outside the exact model (accepted either way, bounded hold asserted); serialised transports get two extra buffered messages; callees are in-process so that a held handler is observable.", "DESIGN.md 4/C07"),
 })
